@@ -42,14 +42,14 @@ def gen_corpus(layer, shards=1, module="gen/Gen_Terms", deps=("gen/Gen_Terms.tla
     parts = []
 
     def one(k):
-        cfg = os.path.join(CORPUS, "%s_%d.cfg" % (tag, k))
+        cfg = os.path.join(CORPUS, "%s_%d_%d.cfg" % (tag, k, os.getpid()))        # (names private to this process)
         lines = ["SPECIFICATION Spec", "CHECK_DEADLOCK FALSE", "CONSTANTS",
                  '  Layer = "%s"' % layer, "  NShards = %d" % shards, "  Shard = %d" % k]
         for kk, vv in (extra_constants or {}).items():
             lines.append("  %s = %s" % (kk, vv))
         with open(cfg, "w") as f:
             f.write("\n".join(lines) + "\n")
-        part = os.path.join(CORPUS, "%s_%d.part" % (tag, k))
+        part = os.path.join(CORPUS, "%s_%d_%d.part" % (tag, k, os.getpid()))
         r = tlc.run(module, cfg=cfg, env={"OUT_FILE": part}, workers=1, heap="2g", timeout=1800)
         os.remove(cfg)
         if r.rc != 0 or r.error:
@@ -59,7 +59,7 @@ def gen_corpus(layer, shards=1, module="gen/Gen_Terms", deps=("gen/Gen_Terms.tla
     with ThreadPoolExecutor(max_workers=min(shards, tlc.NCPU)) as ex:
         res = list(ex.map(one, range(shards)))
     seen = set()
-    tmp = out + ".tmp"
+    tmp = out + ".tmp%d" % os.getpid()
     with open(tmp, "w") as fo:
         for part, _ in res:
             with open(part) as fi:
